@@ -67,6 +67,9 @@ def jobs(tier, seed):
     js.append(Job("async", "vlib.stage1:h_stage1",
                   {"shapes": [F([S(2)], bg=1)], "opts": {"async_steps": True, "out_dom": {"*": [0, 8]}},
                    "checks": base}, reach=REACH, min_paths=20, cost=100, validate=150))
+    js.append(Job("async-timeout", "vlib.stage1:h_stage1",
+                  {"shapes": [F([S(2), S(1)])], "opts": {"async_steps": "timeout", "out_dom": {"*": [0, 5]}},
+                   "checks": base}, reach=REACH, min_paths=20, cost=100, validate=150))
     js.append(Job("continue", "vlib.stage1:h_stage1",
                   {"shapes": [F([S(3)])], "opts": {"continue_after_failed_step": True, "out_dom": {"*": [0, 3]}},
                    "checks": base}, reach=REACH, min_paths=20, cost=100, validate=150))
